@@ -423,6 +423,19 @@ def bit_methods(ck, rule):
             if dotted(a0) != "self.val":
                 ck.bad(rule, m, "the first operand of the primitive is x's code", "first operand %s" % (src(a0)[:40] if a0 is not None else None), sv[0].stmt)
                 continue
+            if xp and fxp_branch and len(inner.args) >= 2:
+                # second operand: the other word's codes, at most re-typed to an integer carrier (never to a value type such as float)
+                a1 = inner.args[1]
+                base, casts = a1, []
+                while isinstance(base, ast.Call) and isinstance(base.func, ast.Attribute) and base.func.attr == "astype" and base.args:
+                    casts.append(base.args[0])
+                    base = base.func.value
+                okb = dotted(base) == "%s.val" % xp
+                okc = all((dotted(cst) or "").endswith(".val.dtype") or dotted(cst) in ("object", "int", "np.int64", "np.uint64", "np.object_") for cst in casts)
+                if not (okb and okc):
+                    ck.bad(rule, m, "the second operand of the primitive is the other word's code, re-typed at most to an integer carrier",
+                           "second operand %s" % src(a1)[:60], sv[0].stmt, "a cast of the codes to the value type (float) rounds patterns above 2^53")
+                    continue
             n_ok += 1
         if xp:
             ck.check(raised, rule, m, "%s raises when the word lengths differ" % name, "no raising path guarded by the n_word comparison", m.node,
